@@ -950,6 +950,23 @@ Section StoreFacts.
     intros k v [].
   Qed.
 
+  (* the same from any consistent state *)
+  Theorem run_rinv : forall ops Q (y0 y : sys), good dec -> SInv Q y0 -> Forall (valid_op (node (mem y0))) ops ->
+    RInv (mem y0) -> run y0 ops = Ok y -> RInv (mem y).
+  Proof.
+    induction ops as [|o t IH]; intros Q y0 y G S F R RU; cbn [Storage.run] in RU.
+    - now inversion RU; subst.
+    - inversion F as [|? ? F1 F2]; subst.
+      destruct (step_inv Q y0 o S F1) as (y1 & E1 & S1 & (C1 & C2 & C3)). rewrite E1 in RU. cbn [bind] in RU.
+      destruct (step_rinv Q y0 o y1 G S F1 R E1) as (R1 & _). rewrite <- C3 in F2. eapply IH; eassumption.
+  Qed.
+
+  Lemma run_app : forall a b (y : sys), run y (a ++ b) = bind (run y a) (fun y1 => run y1 b).
+  Proof.
+    induction a as [|o a IH]; intros b y; cbn [app Storage.run bind]; [reflexivity|].
+    destruct (step y o); cbn [bind]; [apply IH | reflexivity | reflexivity].
+  Qed.
+
   (* the radius only shrinks during a run (no reopen in between) *)
   Theorem run_radius_antitone : forall ops Q y0 y, good dec -> SInv Q y0 -> RInv (mem y0) ->
     Forall (valid_op (node (mem y0))) ops -> forallb is_put_or_get ops = true ->
